@@ -209,6 +209,9 @@ fn gen_history<P: Payload>(
             }
         }
     }
+    if result.is_ok() && rng.chance(1, 6) {
+        let _ = r.apply(Op::DropUnwinding);
+    }
     let ops = r.ops.clone();
     let states = std::mem::take(&mut r.state_hashes);
     match result {
@@ -247,6 +250,7 @@ fn run_ops<P: Payload>(cfg: Cfg, oracles: Oracles, ops: &[Op]) -> Result<(Stats,
             Op::AddPast { time_ns } if time_ns < r.current() => r.add_past(time_ns),
             Op::Cancel { tag } if tag < r.tags() => r.cancel(tag),
             Op::Peek => r.peek(),
+            Op::DropUnwinding => r.apply(Op::DropUnwinding),
             Op::Fetch if r.pending() > 0 => {
                 let before: Vec<bool> = (0..r.tags()).map(|t| r.is_pending(t)).collect();
                 let res = r.fetch();
@@ -400,6 +404,7 @@ fn add_stats(rep: &mut Report, s: &Stats) {
     rep.count("bucket_scan_steps", s.scan_steps);
     rep.count("peek_time_checks", s.peeks);
     rep.count("events_pending_at_queue_drop", s.dropped_pending);
+    rep.count("queues_dropped_while_unwinding", s.dropped_unwinding);
     rep.max("max_queue_len", s.max_len as u64);
     if s.allocs > 0 {
         rep.count("allocator_allocs", s.allocs);
@@ -419,6 +424,7 @@ fn history_hash(cfg: Cfg, payload: usize, ops: &[Op]) -> u64 {
             Op::Cancel { tag } => h.u64(3).u64(*tag as u64),
             Op::Fetch => h.u64(4),
             Op::Peek => h.u64(5),
+            Op::DropUnwinding => h.u64(6),
         };
     }
     h.finish()
